@@ -21,6 +21,7 @@ type Profile struct {
 	Effects    bool   // prints through vdefer / vacquire (C18)
 	NoMaps     bool   // no map-typed data (the generated map inspectors allocate by themselves)
 	KeepFmt    bool   // also generate keepFmt=true cases with newlines in text
+	OKFlags    bool   // ctx assignments mostly carry an ok-flag, sources are often absent
 	Comments   bool
 	BreakN     bool
 	Includes   bool
@@ -34,17 +35,19 @@ type scopeVar struct {
 }
 
 type Gen struct {
-	r       *RNG
-	p       *Profile
-	data    *DataEnv
-	flits   map[string]float64
-	scope   []scopeVar
-	loopD   int
-	nextVar int
-	tags    map[string]bool
-	incs    []string // registered include keys available
-	budget  int
-	noBreak bool
+	r        *RNG
+	p        *Profile
+	data     *DataEnv
+	flits    map[string]float64
+	scope    []scopeVar
+	loopD    int
+	nextVar  int
+	tags     map[string]bool
+	incs     []string // registered include keys available
+	budget   int
+	noBreak  bool
+	past     []string // variables of counter loops that have ended (still readable afterwards)
+	inRegion int
 }
 
 var niceFloats = []float64{0, 1, -1, 0.5, -0.5, 2.25, 10, 12.5, 100, 1e6, 123456.75, -7.125, 3, 0.25, 1e15, 9000.015, 14.345241, 2.5e-7, 1e21, math.MaxInt32}
@@ -643,6 +646,28 @@ func (g *Gen) genItem(depth int) *Ast {
 			a.Else = append([]*Ast{{K: "text", Text: g.marker()}}, g.genItems(depth+1, r.Intn(2))...)
 		}
 		return a
+	case "ifok":
+		a := &Ast{K: "ifok", CtxVar: fmt.Sprintf("c%d", r.Intn(3)), CtxOK: fmt.Sprintf("ok%d", r.Intn(2)), Neg: r.Chance(35)}
+		switch {
+		case r.Chance(20):
+			a.CtxLit, a.CtxQuote = true, `"`
+			a.CtxSrc = []string{"lit", "xy", "7"}[r.Intn(3)]
+		case len(g.scope) > 0 && r.Chance(30) && g.scope[len(g.scope)-1].Kind != "hist":
+			a.CtxSrc = g.scope[len(g.scope)-1].Name
+		default:
+			o, _ := g.pickOperand("int", "uint", "float", "string", "bytes", "bool", "missing")
+			a.CtxSrc = o.Path
+		}
+		g.tag("ifok")
+		a.Then = append([]*Ast{{K: "text", Text: g.marker()}}, g.genItems(depth+1, r.Intn(2))...)
+		if r.Chance(30) {
+			a.Then = append(a.Then, &Ast{K: "print", Path: a.CtxVar})
+		}
+		if r.Chance(60) {
+			a.HasElse = true
+			a.Else = append([]*Ast{{K: "text", Text: g.marker()}}, g.genItems(depth+1, r.Intn(2))...)
+		}
+		return a
 	case "ternary":
 		a := &Ast{K: "ternary", Cond: g.genCond()}
 		if a.Cond.Helper != "" {
@@ -731,6 +756,13 @@ func (g *Gen) genItem(depth int) *Ast {
 		return g.genCtx()
 	case "dynprint":
 		return &Ast{K: "print", Path: g.dynVar()}
+	case "pastprint":
+		// the variable of a counter loop that has ended is still set
+		if len(g.past) == 0 {
+			return g.genPrint()
+		}
+		g.tag("print:past-loop-var")
+		return &Ast{K: "print", Path: g.past[r.Intn(len(g.past))]}
 	case "dyncond":
 		v := g.dynVar()
 		c := &ACond{L: v, Op: cmpOps[r.Intn(6)], R: fmt.Sprint(r.Intn(12)), RLit: true}
@@ -771,11 +803,16 @@ func (g *Gen) genItem(depth int) *Ast {
 		return &Ast{K: "exit"}
 	case "region":
 		kinds := []string{"jsonquote", "htmlescape", "urlencode"}
-		if g.p.RegionKind != "" {
+		if g.p.RegionKind != "" && !(g.inRegion > 0 && r.Chance(35)) {
 			kinds = []string{g.p.RegionKind}
 		}
 		a := &Ast{K: "region", Region: kinds[r.Intn(len(kinds))]}
+		if g.inRegion > 0 {
+			g.tag("region:nested:" + a.Region)
+		}
+		g.inRegion++
 		a.Body = g.genItems(depth+1, g.small())
+		g.inRegion--
 		return a
 	}
 	return &Ast{K: "text", Text: g.marker()}
@@ -801,6 +838,50 @@ func (g *Gen) genLoopCond() *ACond {
 func (g *Gen) newVar(prefix string) string {
 	g.nextVar++
 	return fmt.Sprintf("%s%d", prefix, g.nextVar)
+}
+
+// loopCombos appends interacting control instructions to a loop body: the properties quantify over
+// every placement, and some interactions need two instructions in one iteration.
+func (g *Gen) loopCombos(body []*Ast, depth int) []*Ast {
+	r := g.r
+	if g.noBreak || !g.p.BreakN || !r.Chance(30) {
+		return body
+	}
+	mk := func(k string, n int) *Ast { return &Ast{K: k, N: n, Cond: g.genLoopCond()} }
+	switch r.Intn(4) {
+	case 0:
+		// lazybreak, then a continue later in the same iteration
+		g.tag("combo:lazy-continue")
+		lb := mk("lazybreak", 0)
+		if r.Chance(40) {
+			lb = &Ast{K: "if", Cond: g.genLoopCond(), Then: []*Ast{{K: "lazybreak"}}}
+		}
+		co := &Ast{K: "continue", Cond: g.genLoopCond()}
+		if r.Chance(30) {
+			co.Cond = nil
+		}
+		return append(body, lb, &Ast{K: "text", Text: g.marker()}, co, &Ast{K: "text", Text: g.marker()})
+	case 1:
+		// lazybreak N, then a sibling loop that leaves with a smaller depth
+		if g.loopD < 2 || depth >= g.p.MaxDepth {
+			return body
+		}
+		g.tag("combo:lazyN-sibling-break")
+		inner := &Ast{K: "cloop", Var: g.newVar("i"), Init: "0", InitLit: true, Op: "<", Lim: "3", LimLit: true, Step: "++"}
+		inner.Body = []*Ast{{K: "text", Text: g.marker()}, {K: "print", Path: inner.Var}, {K: []string{"break", "lazybreak"}[r.Intn(2)], N: 2, Cond: &ACond{L: inner.Var, Op: "==", R: fmt.Sprint(r.Intn(2)), RLit: true}}, {K: "text", Text: g.marker()}}
+		if g.budget < 6 {
+			g.budget = 6
+		}
+		return append(body, mk("lazybreak", 2+r.Intn(2)), &Ast{K: "text", Text: g.marker()}, inner, &Ast{K: "text", Text: g.marker()})
+	case 2:
+		// lazybreak and a print inside one if block, last in the iteration
+		g.tag("combo:lazy-print-in-if")
+		return append(body, &Ast{K: "if", Cond: g.genLoopCond(), Then: []*Ast{{K: "lazybreak"}, {K: "text", Text: g.marker()}}})
+	default:
+		// lazybreak N, then a plain break before the iteration ends
+		g.tag("combo:lazyN-break")
+		return append(body, mk("lazybreak", 1+r.Intn(3)), &Ast{K: "text", Text: g.marker()}, mk("break", 0), &Ast{K: "text", Text: g.marker()})
+	}
 }
 
 func (g *Gen) genCLoop(depth int) *Ast {
@@ -863,8 +944,10 @@ func (g *Gen) genCLoop(depth int) *Ast {
 	if r.Chance(50) {
 		a.Body = append(a.Body, &Ast{K: "print", Path: a.Var})
 	}
+	a.Body = g.loopCombos(a.Body, depth+1)
 	g.loopD--
 	g.scope = g.scope[:len(g.scope)-1]
+	g.past = append(g.past, a.Var)
 	if r.Chance(40) {
 		a.HasElse = true
 		a.Else = []*Ast{{K: "text", Text: g.marker()}}
@@ -917,6 +1000,7 @@ func (g *Gen) genRLoop(depth int) *Ast {
 	}
 	g.loopD++
 	a.Body = append([]*Ast{{K: "text", Text: g.marker()}}, g.genItems(depth+1, g.small())...)
+	a.Body = g.loopCombos(a.Body, depth+1)
 	g.loopD--
 	g.scope = g.scope[:len(g.scope)-n]
 	if r.Chance(40) {
@@ -970,14 +1054,23 @@ func (g *Gen) genCtx() *Ast {
 			a.CtxMods = []AMod{m}
 		}
 	}
-	if r.Chance(30) {
+	if r.Chance(30) || (g.p.OKFlags && r.Chance(50)) {
 		a.CtxOK = fmt.Sprintf("ok%d", r.Intn(2))
+		if g.p.OKFlags && !a.CtxLit && r.Chance(35) {
+			// an absent or empty source: the flag must be written as false
+			a.CtxSrc = []string{"nosuch.Field", "user.Nope", "absent"}[r.Intn(3)]
+			a.CtxMods = nil
+			g.tag("ctx:ok:empty-source")
+		}
 	}
 	return a
 }
 
 func (g *Gen) dynVar() string {
 	r := g.r
+	if g.p.OKFlags && r.Chance(30) {
+		return fmt.Sprintf("ok%d", r.Intn(2))
+	}
 	switch r.Intn(5) {
 	case 0, 1:
 		return fmt.Sprintf("c%d", r.Intn(3))
